@@ -18,7 +18,7 @@ TSAN := -fsanitize=thread
 LIBSRCS := $(shell python3 $(ROOT)tools/libsrcs.py $(REPO))
 LIBOBJS_ASAN := $(patsubst src/%.cc,$(B)/asan/lib/%.o,$(LIBSRCS))
 
-WRAP_VFS := read write pread pwrite open close fstat stat lstat fcntl poll opendir readdir closedir unlink rmdir
+WRAP_VFS := read write pread pwrite open close fstat stat lstat fcntl poll opendir readdir closedir unlink rmdir fopen
 WRAPFLAGS_VFS := $(foreach s,$(WRAP_VFS),-Wl,--wrap=$(s))
 
 .PHONY: setup clean engine
